@@ -27,7 +27,7 @@ struct SchdHeader {
     #[br(count = 3)]
     #[bw(pad_size_to = 3)]
     #[bw(map = |x : &String | x.as_bytes())]
-    #[br(map = | x: Vec<u8> | String::from_utf8(x).unwrap().trim_matches(char::from(0)).to_string())]
+    #[br(try_map = | x: Vec<u8> | String::from_utf8(x).map(|s| s.trim_matches(char::from(0)).to_string()))]
     version: String,
 
     stage: ShaderStage,
